@@ -262,7 +262,7 @@ func hnetExtract(root *decode.Value) (*hnetFlows, error) {
 
 func ipString(ip [4]byte) string { return fmt.Sprintf("%d.%d.%d.%d", ip[0], ip[1], ip[2], ip[3]) }
 
-func fnv64(b []byte) uint64 {
+func hnetFnv64(b []byte) uint64 {
 	h := uint64(14695981039346656037)
 	for _, c := range b {
 		h = (h ^ uint64(c)) * 1099511628211
@@ -271,7 +271,7 @@ func fnv64(b []byte) uint64 {
 }
 
 // firstDiff describes where two byte strings part.
-func firstDiff(got, want []byte) string {
+func hnetFirstDiff(got, want []byte) string {
 	n := len(got)
 	if len(want) < n {
 		n = len(want)
@@ -346,7 +346,7 @@ func (*hnet) Run(rc *core.RunCtx) *core.RunResult {
 			res.Faults[netsim.FaultNames[i]] += n
 		}
 	}
-	res.Fingerprint = fnv64(capture)
+	res.Fingerprint = hnetFnv64(capture)
 	if HnetCaptureSink != nil {
 		HnetCaptureSink(flavour, capture)
 	}
@@ -557,7 +557,7 @@ func hnetCheck(flows *hnetFlows, tr *netsim.Truth, params netsim.Params, key str
 			report("ipv4-reassembly", fragFeat(want)+key, fmt.Sprintf("entry %d (id %d): %s > %s protocol %d reported, %s > %s protocol %d sent", i, id, g.Src, g.Dst, g.Proto, ipString(want.Src), ipString(want.Dst), want.Proto))
 		}
 		if !bytes.Equal(payload, want.Payload) || !bytes.Equal(raw[20:], want.Payload) {
-			report("ipv4-reassembly", fragFeat(want)+key, fmt.Sprintf("entry %d (id %d) payload: %s", i, id, firstDiff(payload, want.Payload)))
+			report("ipv4-reassembly", fragFeat(want)+key, fmt.Sprintf("entry %d (id %d) payload: %s", i, id, hnetFirstDiff(payload, want.Payload)))
 		}
 	}
 	for j := range tr.Reasm {
@@ -607,7 +607,7 @@ func hnetCheck(flows *hnetFlows, tr *netsim.Truth, params netsim.Params, key str
 			case d.Missing && len(stream) > len(d.Expect) && bytes.Equal(stream[:len(d.Expect)], d.Expect):
 				report("invented-data", feat+key, fmt.Sprintf("%s: the capture lacks the stream from offset %d on, yet %d bytes are reported", who, len(d.Expect), len(stream)))
 			default:
-				report("stream-mismatch", feat+key, fmt.Sprintf("%s: %s; skipped_bytes=%d", who, firstDiff(stream, d.Expect), g.Skipped))
+				report("stream-mismatch", feat+key, fmt.Sprintf("%s: %s; skipped_bytes=%d", who, hnetFirstDiff(stream, d.Expect), g.Skipped))
 			}
 			switch {
 			case !d.Missing && g.Skipped != 0:
